@@ -270,6 +270,7 @@ func (t *Translator) writesInPlace07(m ast.Node, f func(e ast.Expr, call *ast.Ca
 				}
 			}
 		}
+		t.writesForeign09(x, f) // [ext:T09] a slice handed to a foreign function that writes it (TransSpec.Foreign.Writes)
 		if name, ok := t.stdName07(x); ok && len(x.Args) > 0 {
 			switch stdFuncs07[name].kind {
 			case stdOut07:
@@ -538,6 +539,9 @@ func (c *fctx) readOnlyUse07(id *ast.Ident) bool {
 		if isCopySrc(x, child) {
 			return true
 		}
+		if t.foreignReadArg09(x, child) { // [ext:T09] an argument a listed foreign function only reads (foreign functions do not retain)
+			return true
+		}
 		if fn, _ := t.calleeOf(x); fn != nil && t.noRetain07(fn) {
 			fi := t.funcs[fn]
 			for i, a := range x.Args {
@@ -649,7 +653,7 @@ func (c *fctx) outArg07(arg ast.Expr, en *env, at ast.Node, k func(term string, 
 		base := ast.Unparen(se.X)
 		key := c.sliceKey(base, en)
 		c.checkWritable(key, en, at)
-		if g := t.exprType(base); g.k != kSlice || g.elem != nil || g.str || g.isArr {
+		if g := t.exprType(base); g.k != kSlice || g.elem != nil || g.str || (g.isArr && !t.spec09.on()) { // [ext:T09] arr[a:b] of a local array: the same write-back
 			t.fail(arg, "a slice of something that is not a slice of integers is written in place by the callee")
 		}
 		return c.expr(base, en, func(d string) string {
